@@ -230,12 +230,17 @@ func c12Exec(c fw.Case) *fw.Result {
 			reg = hist.Stamp
 		}
 		n, idx := int(c.Int("n")), int(c.Int("idx"))
-		h := hist.Burst(c.Int("way") == 1, reg, n, idx)
+		zones := c.Int("zones") == 1
+		h := hist.BurstZ(c.Int("way") == 1, reg, n, idx, zones)
 		kind := "rel"
 		if h.Way {
 			kind = "way"
 		}
-		c12One(res, h, fmt.Sprintf("enum-%s-%s-%d-%d", kind, reg, n, idx), fmt.Sprintf("enum/%s/%s/versions-in-one-second=%d/indices=%d", kind, reg, n-1, idx))
+		zs := ""
+		if zones {
+			zs = "/mixed-time-zones"
+		}
+		c12One(res, h, fmt.Sprintf("enum-%s-%s-%d-%d%s", kind, reg, n, idx, zs), fmt.Sprintf("enum/%s/%s/versions-in-one-second=%d/indices=%d%s", kind, reg, n-1, idx, zs))
 		res.Sample = map[string]any{"history": h}
 	case "random":
 		n := int(c.Int("n"))
@@ -290,6 +295,10 @@ func c12Cases(tier string, seed uint64) []fw.Case {
 						continue
 					}
 					cs = append(cs, fw.Case{Kind: "enum", P: map[string]int64{"way": way, "stamp": stamp, "n": n, "idx": idx}})
+					if (n-1)*idx > 12 && (tier == "thorough" || n%3 == 0) {
+						// the same input with the shared second expressed in rotating time.Locations
+						cs = append(cs, fw.Case{Kind: "enum", P: map[string]int64{"way": way, "stamp": stamp, "n": n, "idx": idx, "zones": 1}})
+					}
 				}
 			}
 		}
@@ -312,7 +321,7 @@ func init() {
 		ID:    "C12",
 		Level: "exploration",
 		Rule: "each input (a generated history from the C11 generator biased to several versions of a child sharing one second, the same child at several indices, up to 16 versions per child, up to 14 children and more than 12 updates per parent version; " +
-			"general and mixed-regime histories; plus the enumerated family: n-1 versions in one second after the parent x child at 1-4 indices, n=2..16, ways and relations, both regimes) " +
+			"general and mixed-regime histories; 40% of the histories express their times in mixed time.Locations (same instants); plus the enumerated family (also with the shared second in rotating Locations): n-1 versions in one second after the parent x child at 1-4 indices, n=2..16, ways and relations, both regimes) " +
 			"is annotated K=12 times on deep clones (eq.Clone) with a fresh recording datasource; oracles: all runs succeed or all fail; on success all canonical dumps (eq.Dump) are identical; " +
 			"every update list of every run is ordered by index, then time, then version. The order of datasource history calls is recorded per run (map_orders_distinct counts distinct (input, order) pairs; " +
 			"inputs whose 12 runs all saw one order are counted as not exercising map order). Signature = (parent kind, regime, threshold, #parents, #children, outcome, one/several map orders, >12 updates, versions sharing index and second).",
